@@ -37,3 +37,16 @@ Theorem C11_dead_detected : forall e i, running_not_done e -> In i (dead_ids e) 
   done (fut_of (consume e) i) = true /\ has (running (consume e)) i = false.
 Proof. exact (fun e i H Hin => conj (dead_worker_done e i Hin) (dead_worker_removed e i H Hin)). Qed.
 Print Assumptions C11_dead_detected.
+
+(* The same with no assumption on the state: the executor invariant ExInv (running futures are pending; queued futures are
+   pending and not running; no duplicate in the queue; ids below the counter) holds after every sequence of
+   submit / wait / cancel / stop calls and environment events, for the start policy the source has now. *)
+Theorem C11_dead_detected_always : forall ops w e i,
+  In e (states start_policy_src (init_ex w) ops) -> In i (dead_ids e) ->
+  done (fut_of (consume e) i) = true /\ has (running (consume e)) i = false.
+Proof. exact (dead_detected_always start_policy_src). Qed.
+Print Assumptions C11_dead_detected_always.
+
+Theorem C11_executor_invariant : forall ops w e, In e (states start_policy_src (init_ex w) ops) -> ExInv e.
+Proof. exact (fun ops w e H => ExInv_states start_policy_src ops (init_ex w) (ExInv_init w) e H). Qed.
+Print Assumptions C11_executor_invariant.
